@@ -1654,6 +1654,200 @@ Section Hybrid.
   Qed.
 End Hybrid.
 
+(* ================================================================================================
+   values presented AS A STATE that are not states (C09): only a key of the RECORD store (cl_db) is a state.
+   The binding map (cl_map: nonce / subject / session id / logout state -> state) is never consulted to
+   recognise one, so a key of the map that is not a key of the record store - whatever it is bound to - is an
+   unknown state everywhere: authorization responses, get_tokens / refresh / user info made for it, the look-ups
+   of the RPHandler.
+   ================================================================================================ *)
+Section BoundKeys.
+  Variable lhash : pystr -> pystr -> pystr.
+
+  Lemma db_get_has_key db k rec : db_get db k = Ok rec -> has_key k db = true.
+  Proof. intro H. apply db_get_assoc in H. unfold has_key. now rewrite H. Qed.
+  Lemma db_get_no_key db k : has_key k db = false -> db_get db k = Err KeyError.
+  Proof. intro H. apply has_key_false in H. unfold db_get. now rewrite H. Qed.
+
+  (* an accepted authorization response: the state parameter, as delivered, is a key of the record store *)
+  Lemma step_authz_accept_entry c r now c' stored :
+    step_authz lhash c r now = (c', Ok stored) -> has_key (PS "error") stored = false ->
+    exists st rec, db_get (cl_db c) st = Ok rec /\ has_entry (PS "state") (VStr st) (r_params r) = true /\
+      assoc (PS "state") stored = Some (VStr st).
+  Proof.
+    intros H Eerr. pose proof H as H0. unfold step_authz in H0.
+    destruct (parse_authz lhash c r now) as [d| |] eqn:Hp; try (pair_absurd H0).
+    destruct (has_key (PS "error") d) eqn:E.
+    { inversion H0; subst. rewrite resp_to_dict_has_key in Eerr. congruence. }
+    destruct (parse_authz_inv lhash _ _ _ _ Hp E) as (d0 & Hf & Hv & _).
+    destruct (authz_response_verify_inv lhash _ _ _ _ _ Hv) as (_ & _ & Hkeep & _).
+    destruct (step_authz_accept lhash _ _ _ _ _ H Eerr) as (st & rec & Hst & Hrec & _).
+    exists st, rec. split; [exact Hrec|]. split; [|exact Hst].
+    destruct (state_param d) as [st1| |] eqn:Est; try (pair_absurd H0).
+    destruct (db_get (cl_db c) st1) as [rec1| |]; try (pair_absurd H0).
+    destruct (negb _); [pair_absurd H0|].
+    destruct (with_expires_at (resp_to_dict authz_resp_params d) now) as [s0| |] eqn:Ew; try (pair_absurd H0).
+    inversion H0; subst s0.
+    assert (Hsd : assoc (PS "state") d = Some (VStr st)).
+    { erewrite <- stored_assoc; eauto using key_not_expires_state. }
+    rewrite (Hkeep (PS "state") eq_refl) in Hsd.
+    eapply from_dict_cstr_entry; eauto; reflexivity.
+  Qed.
+
+  Lemma backchannel_mentions o st : backchannel_of o = Some st -> op_mentions o st = true.
+  Proof. destruct o; cbn; intro H; inversion H; subst; apply str_eqb_refl. Qed.
+
+  (* ACCEPTANCE REQUIRES A KEY OF THE RECORD STORE: whatever operation other than the start of a flow is accepted
+     (handed back without an error member), the state it was accepted for - the state parameter of the response,
+     the state argument of the request - is a key of cl_db of the client it was executed on *)
+  Theorem world_accept_record_key w o w' stored :
+    step lhash w o = (w', Ok stored) -> is_begin o = false -> has_key (PS "error") stored = false ->
+    exists i c st, op_target w o = Some i /\ assoc i w = Some c /\ op_mentions o st = true /\
+      accepted_for o stored st /\ has_key st (cl_db c) = true.
+  Proof.
+    intros H Hb Herr. destruct (backchannel_of o) as [st|] eqn:Hbc.
+    - destruct (world_backchannel_key lhash _ _ _ _ _ Hbc H) as [(Hno & _)|(i & c & rec & st0 & m & Ht & Hi & Hrec & _)].
+      + exfalso. eapply Hno; reflexivity.
+      + exists i, c, st. split; [exact Ht|]. split; [exact Hi|]. split; [apply backchannel_mentions; exact Hbc|].
+        split; [unfold accepted_for; rewrite Hbc; reflexivity|eapply db_get_has_key; eauto].
+    - destruct o as [i st nonce req|i r now|i st r now|i st u|st r now|i st r now|st r now|st u];
+        cbn [backchannel_of is_begin] in *; try discriminate.
+      cbn [step] in H. apply on_client_inv in H as [(_ & _ & Hout)|(c & c' & Hi & Hf & _)]; [discriminate|].
+      destruct (step_authz_accept_entry _ _ _ _ _ Hf Herr) as (st & rec & Hrec & Hent & Hst).
+      exists i, c, st. split; [reflexivity|]. split; [exact Hi|]. split; [exact Hent|].
+      split; [exact Hst|eapply db_get_has_key; eauto].
+  Qed.
+
+  (* one client: a key of its binding map that is not a key of its record store is an unknown state *)
+  Theorem client_bound_key_not_a_state c k s :
+    assoc k (cl_map c) = Some s -> has_key k (cl_db c) = false ->
+    (forall r now c' out, step_authz lhash c r now = (c', out) ->
+       (forall s', has_entry (PS "state") (VStr s') (r_params r) = true -> s' = k) ->
+       c' = c /\ forall stored, out = Ok stored -> has_key (PS "error") stored = true) /\
+    (forall r now, step_token lhash c k r now = (c, Err KeyError)) /\
+    (forall r now, step_refresh lhash c k r now = (c, Err KeyError)) /\
+    (forall u, step_userinfo c k u = (c, Err KeyError)).
+  Proof.
+    intros _ Hk. pose proof (db_get_no_key _ _ Hk) as Hg. split; [|split; [|split]].
+    - intros r now c' out H Honly. split.
+      + apply step_authz_shape in H as [->|(st & rec & stored & Hrec & Hent & _)]; [reflexivity|].
+        rewrite (Honly _ Hent) in Hrec. congruence.
+      + intros stored ->. destruct (has_key (PS "error") stored) eqn:E; [reflexivity|].
+        destruct (step_authz_accept_entry _ _ _ _ _ H E) as (st & rec & Hrec & Hent & _).
+        rewrite (Honly _ Hent) in Hrec. congruence.
+    - intros r now. unfold step_token. rewrite Hg. reflexivity.
+    - intros r now. unfold step_refresh. rewrite Hg. reflexivity.
+    - intros u. unfold step_userinfo. rewrite Hg. reflexivity.
+  Qed.
+
+  (* histories: a value this relying party never issued as a state is refused wherever it is presented as one,
+     and nothing changes (an authorization ERROR response is handed back as it is, without touching the stores) *)
+  Theorem history_unissued_state_refused cfgs pre o w' out :
+    is_begin o = false ->
+    (forall s, op_mentions o s = true -> forall i, ~ In (i, s) (issued pre)) ->
+    step lhash (run lhash (init_world cfgs) pre) o = (w', out) ->
+    w' = run lhash (init_world cfgs) pre /\ (forall stored, out = Ok stored -> has_key (PS "error") stored = true).
+  Proof.
+    intros Hb Hun H. set (w := run lhash (init_world cfgs) pre) in *.
+    assert (Hno : forall i c st, assoc i w = Some c -> op_mentions o st = true -> has_key st (cl_db c) = true -> False).
+    { intros i c st Hi Hm Hk. apply (Hun st Hm i). exact (history_states_issued lhash cfgs pre i c st Hi Hk). }
+    split.
+    - destruct (backchannel_of o) as [st|] eqn:Hbc.
+      + destruct (world_backchannel_key lhash _ _ _ _ _ Hbc H) as [(_ & ->)|(i & c & rec & st0 & m & _ & Hi & Hrec & _)];
+          [reflexivity|].
+        exfalso. eapply Hno; eauto using backchannel_mentions, db_get_has_key.
+      + destruct o as [i st nonce req|i r now|i st r now|i st u|st r now|i st r now|st r now|st u];
+          cbn [backchannel_of is_begin] in *; try discriminate.
+        cbn [step] in H. apply on_client_inv in H as [(_ & -> & _)|(c & c' & Hi & Hf & ->)]; [reflexivity|].
+        apply step_authz_shape in Hf as [->|(st & rec & stored & Hrec & Hent & _)]; [apply w_set_same; exact Hi|].
+        exfalso. eapply Hno; eauto using db_get_has_key.
+    - intros stored ->. destruct (has_key (PS "error") stored) eqn:E; [reflexivity|]. exfalso.
+      destruct (world_accept_record_key _ _ _ _ H Hb E) as (i & c & st & _ & Hi & Hm & _ & Hk). eapply Hno; eauto.
+  Qed.
+
+  (* ... in particular a key of the binding map of ANY client - the nonce of this or another pending flow, a bound
+     subject, a bound session id, the state of a logout request - that was never issued as a state.  (The
+     hypothesis on the map is not used by the proof: what a value is bound to confers nothing.) *)
+  Theorem history_bound_key_never_a_state cfgs pre j k s o w' out :
+    map_of (run lhash (init_world cfgs) pre) j k = Some s ->
+    (forall i, ~ In (i, k) (issued pre)) ->
+    is_begin o = false -> (forall s', op_mentions o s' = true -> s' = k) ->
+    step lhash (run lhash (init_world cfgs) pre) o = (w', out) ->
+    w' = run lhash (init_world cfgs) pre /\ (forall stored, out = Ok stored -> has_key (PS "error") stored = true).
+  Proof.
+    intros _ Hk Hb Hm H. eapply history_unissued_state_refused; eauto.
+    intros s0 Hs0. rewrite (Hm _ Hs0). exact Hk.
+  Qed.
+
+  (* ---- the look-ups of the RPHandler: state2issuer finds only keys of record stores ---- *)
+  Lemma state2issuer_record_key w st v :
+    state2issuer w st = Some v -> exists i c, In (i, c) w /\ has_key st (cl_db c) = true.
+  Proof.
+    induction w as [|[i c] r IH]; cbn [state2issuer]; [discriminate|].
+    assert (Hrest : state2issuer r st = Some v -> exists i0 c0, In (i0, c0) ((i, c) :: r) /\ has_key st (cl_db c0) = true).
+    { intro H. destruct (IH H) as (i0 & c0 & Hin & Hk). exists i0, c0. split; [now right|exact Hk]. }
+    destruct (db_get (cl_db c) st) as [rec| |] eqn:E; auto.
+    destruct (assoc (PS "iss") rec) as [v0|]; auto.
+    destruct (py_truthy v0); auto.
+    intros _. exists i, c. split; [now left|eapply db_get_has_key; eauto].
+  Qed.
+
+  Lemma aset_keys {V} k (v : V) d : has_key k d = true -> List.map fst (aset k v d) = List.map fst d.
+  Proof.
+    unfold has_key. induction d as [|[k' v'] r IH]; cbn; [discriminate|].
+    destruct (str_eqb k k') eqn:E; cbn; [reflexivity|]. intro H. now rewrite IH.
+  Qed.
+  Lemma w_set_keys (w : list (pystr * client)) i c c' : assoc i w = Some c -> List.map fst (w_set w i c') = List.map fst w.
+  Proof. intro H. apply aset_keys. unfold has_key. now rewrite H. Qed.
+
+  Lemma step_keys w o : List.map fst (fst (step lhash w o)) = List.map fst w.
+  Proof.
+    assert (Hon : forall i f, List.map fst (fst (on_client w i f)) = List.map fst w).
+    { intros i f. destruct (on_client w i f) as [w1 out] eqn:E.
+      apply on_client_inv in E as [(_ & -> & _)|(c & c' & Hi & _ & ->)]; [reflexivity|].
+      cbn [fst]. eapply w_set_keys; eauto. }
+    destruct o as [i st nonce req|i r now|i st r now|i st u|st r now|i st r now|st r now|st u]; cbn [step]; auto.
+    - destruct (assoc i w) as [c|] eqn:Ei; cbn [fst]; [eapply w_set_keys; eauto|reflexivity].
+    - destruct (state2issuer w st) as [[| | |i| | |]|]; auto.
+    - destruct (state2issuer w st) as [[| | |i| | |]|]; auto.
+    - destruct (state2issuer w st) as [[| | |i| | |]|]; auto.
+  Qed.
+  Lemma run_keys : forall ops w, List.map fst (run lhash w ops) = List.map fst w.
+  Proof. induction ops as [|o r IH]; intro w; cbn [run]; [reflexivity|]. now rewrite IH, step_keys. Qed.
+  Lemma init_world_keys cfgs : List.map fst (init_world cfgs) = List.map fst cfgs.
+  Proof. unfold init_world. rewrite List.map_map. reflexivity. Qed.
+
+  Lemma in_assoc_nodup {V} (d : list (pystr * V)) k v : NoDup (List.map fst d) -> In (k, v) d -> assoc k d = Some v.
+  Proof.
+    induction d as [|[k' v'] r IH]; cbn; [tauto|]. intros Hnd [Hin|Hin].
+    - inversion Hin; subst. now rewrite str_eqb_refl.
+    - inversion Hnd; subst. destruct (str_eqb k k') eqn:E; [|auto].
+      apply str_eqb_eq in E. subst k'. exfalso. apply H1. apply in_map_iff. exists (k, v). auto.
+  Qed.
+
+  (* after any history of an RPHandler (one client per issuer), a value never issued as a state resolves to no
+     issuer - so get_client_from_session_key and every call routed through it raise KeyError - and to no session
+     of any client *)
+  Theorem history_lookup_unissued cfgs pre k :
+    NoDup (List.map fst cfgs) -> (forall i, ~ In (i, k) (issued pre)) ->
+    probe_out (run lhash (init_world cfgs) pre) (PIssuer k) = Ok [] /\
+    forall i, probe_out (run lhash (init_world cfgs) pre) (PSession i k) = Err KeyError.
+  Proof.
+    intros Hnd Hun. set (w := run lhash (init_world cfgs) pre).
+    assert (Hno : forall i c, assoc i w = Some c -> has_key k (cl_db c) = false).
+    { intros i c Hi. destruct (has_key k (cl_db c)) eqn:E; [|reflexivity].
+      exfalso. apply (Hun i). exact (history_states_issued lhash cfgs pre i c k Hi E). }
+    split.
+    - cbn [probe_out]. destruct (state2issuer w k) as [v|] eqn:E; [|reflexivity]. exfalso.
+      destruct (state2issuer_record_key _ _ _ E) as (i & c & Hin & Hk).
+      assert (Hi : assoc i w = Some c).
+      { apply in_assoc_nodup; [|exact Hin]. unfold w. rewrite run_keys, init_world_keys. exact Hnd. }
+      rewrite (Hno _ _ Hi) in Hk. discriminate.
+    - intro i. cbn [probe_out]. destruct (assoc i w) as [c|] eqn:Hi; [|reflexivity].
+      apply db_get_no_key. eapply Hno; eauto.
+  Qed.
+End BoundKeys.
+
 (* ---- the hypotheses of hybrid_members_own are satisfiable: the two example flows ---- *)
 From Verif Require Import Model.RpExamples.
 Lemma ex_lhash_inj b x y : ex_lhash b x = ex_lhash b y -> x = y.
